@@ -12,12 +12,28 @@ MANIFEST = {
             "properties, faithful on ARBITRARY input bytes. Theorems (coq/Properties/C05.v): for every byte string and every cache the outcome is a value, NeedNetwork, or one of the "
             "deliberate error classes (never IndexError / OverflowError / struct.error / TypeError / KeyError / OutOfFuel), with a bounded number of KDF calls. Tie: the model is "
             "differentially executed against ncrypt_unprotect_secret on all truncations, all single-bit flips, structure-aware DER mutations and key-identifier boundary values of "
-            "library-made blobs (outcome buckets), under the symbolic crypto with a KDF-call budget and again with the real crypto.",
+            "library-made blobs (outcome buckets), under the symbolic crypto with a KDF-call budget and again with the real crypto. "
+            "Proved (Proofs/C05*.v, one lemma per function of the pipeline, bottom-up, combined with Safe_bind / SafeP_bind): C05_deliberate / C05_error_classes (forall CryptoLaws c, "
+            "forall cache and bytes: wfb data -> cache_ok cache -> the outcome is a value, NeedNetwork, ValueError, NotImplementedError, NotEnoughData, InvalidTag or InvalidUnwrap), "
+            "C05_no_fuel_exhaustion (no fuelled loop runs out: reader loops have fuel = length of the bytes they walk, the key-chain loops 100), C05_blob_unpack (the parser layer alone), "
+            "C05_cache_ok_initial / _load / _preserved (cache_ok := every cached seed envelope has L1 <= 31 and L2 <= 31; holds after loading any root keys, kept by every call; nothing is "
+            "assumed of root keys, cached L0 or key material), C05_bounded_kdf_partial + C05_l2_loops_within_fuel (<= 63 KDF calls in compute_l2_key for any instrumented kdf, same key as "
+            "the uninstrumented run), C05_kdf_context_overflow (outside the signed range the context IS an OverflowError: the L0 guard and the 0..31 guards are load-bearing). `wfb data` is "
+            "the type invariant of a Python bytes object (model bytes = list Z). Examples run in Coq: valid / truncated / L0=2^31 / L1=32 / L2=2^32-1 / wrong tag / empty input; a cache "
+            "holding an envelope at L1=200 (not cache_ok) gives OutOfFuel, so cache_ok cannot be dropped.",
     "note": "Crypto primitives are parameters constrained only in the exception classes they may raise (CryptoLaws); modular exponentiation cost on attacker-supplied DH parameters is polynomial, not linear, and is not bounded by the theorem.",
     "technique": "Coq proof (compositional error-class analysis of the faithful pipeline model) + hostile-input correspondence",
 }
 ASSUMPTIONS = ["exception classes of the cryptography primitives (InvalidUnwrap/ValueError, InvalidTag/ValueError, ValueError)",
                "offline = the cache holds root keys; a miss is the library trying to contact a DC (NeedNetwork)"]
+PARTIAL = [
+    "C05_bounded_kdf_partial: wanted C05_bounded_kdf = at most 2 + 63 + 3 KDF calls per unprotect_offline call as a theorem about a counter threaded through the whole pipeline. "
+    "The Crypto record's KDFs are pure functions and the model has no call counter (Model files are not instrumented), so the theorem covers the only loops that call a KDF: the "
+    "regenerated kernel k_compute_l2_key with ANY kdf instrumented by a counter makes <= 31 + 1 + 31 calls from an envelope at a position <= (31, 31), returns the key of the "
+    "uninstrumented run and never exhausts a fuel >= 32. Missing: the constant number of calls of the straight-line code around it (compute_l1_key 2, get_kek / "
+    "compute_kek_from_public_key / compute_kek <= 3) is by inspection of the model, and the cost of pow(b, e, m) on attacker-chosen DH parameters is not bounded; the harness "
+    "enforces the KDF-call budget on the implementation (symbolic crypto budget).",
+]
 RULE = ("per valid blob (4 hashes x positions, both layouts): all truncations, all single-bit flips (quick: every 5th), structure-aware DER mutations (zero-length / huge / "
         "indefinite / non-minimal lengths, wrong tags and classes, high tag numbers, INTEGER/OID content edits), key-identifier fields at {0,1,2,31,32,2^31-1,2^31,2^32-1}, "
         "byte insert/delete/substitute, random bytes; with the root key loaded and with an empty cache; non-trivial = distinct outcome (value / error class) on a distinct input")
